@@ -1126,6 +1126,10 @@ def structured_array_to_string(
             value_format,
         )
 
+    # an array with no rows is an empty string
+    if len(array) == 0:
+        return ""
+
     format_str = ""
     for name in array.dtype.names:
         kind = array[name].dtype.kind
